@@ -3,7 +3,28 @@
 Key = (rule, instance).  Reported in evidence as `exempt`, never as findings.
 """
 
+_NS = ("the callee body is a different name space: users/dependencies are "
+       "collected per name space (comment in DependencyMapper.map_call; "
+       "UsersCollector.map_function_definition raises with that instruction)")
+_EDL = ("rewriting pass leaves index arrays and shape expressions as they are "
+        "(value-preserving: einsums inside them are simply not rewritten)")
+
 EXEMPT: dict[tuple[str, str], str] = {
+    ("R13-CHILDREN", "UsersCollector/Call.function"): _NS,
+    ("R13-CHILDREN", "ListOfUsersCollector/Call.function"): _NS,
+    ("R13-CHILDREN-OVR", "DependencyMapper/Call.function"): _NS,
+    ("R13-CHILDREN-OVR", "SubsetDependencyMapper/Call.function"): _NS,
+    ("R13-CHILDREN-OVR",
+     "_DistributedInputReplacer/DistributedSendRefHolder.send.data"):
+        "the send is processed explicitly through map_distributed_send after "
+        "the holders were removed from the DAG (comment in the class)",
+    ("R13-CHILDREN-OVR",
+     "EinsumDistributiveLawMapper/AdvancedIndexInContiguousAxes.indices"): _EDL,
+    ("R13-CHILDREN-OVR",
+     "EinsumDistributiveLawMapper/AdvancedIndexInNoncontiguousAxes.indices"): _EDL,
+    ("R13-CHILDREN-OVR", "EinsumDistributiveLawMapper/BasicIndex.indices"): _EDL,
+    ("R13-CHILDREN-OVR", "EinsumDistributiveLawMapper/IndexLambda.shape"): _EDL,
+    ("R13-CHILDREN-OVR", "EinsumDistributiveLawMapper/Reshape.newshape"): _EDL,
     # NamedCallResult: axes/tags are copied from function.returns[name] by
     # Call.__getitem__ (the only producer) and tagging/with_tagged_axis raise;
     # they are functions of (_container, name), which are compared.
@@ -18,3 +39,12 @@ EXEMPT: dict[tuple[str, str], str] = {
     ("R04-HASH-SUBSET", "NamedCallResult.tags"):
         "determined by (_container, name), see R04-EQ-FIELD exemption",
 }
+
+
+def exempt_by_rule(rule: str, mapper: str, kind: str, path: tuple) -> str | None:
+    """Rule-derived exemptions (one documented design decision each)."""
+    if rule.startswith("R13-CHILDREN") and mapper == "MPMSMaterializer" \
+            and path[-1] in ("shape", "newshape"):
+        return ("materialize_with_mpms docstring: 'Does not attempt to "
+                "materialize sub-expressions in Array.shape'")
+    return None
